@@ -66,7 +66,7 @@ structure LineTrans where
   pWidth : Rat
   scale : Rat
   offset : Rat
-  deriving Repr
+  deriving Repr, DecidableEq
 
 /-- `LineTransLin.__init__` (incl. the base class check `leftP >= rightP`). -/
 def mkLin (lP rP lL rL : Rat) (bu : Backup := BACKUP_ALL) : Except Err LineTrans :=
